@@ -564,3 +564,31 @@ def rule_component_traversal(ctx):
             r.ok(anchor + "|queued", "NOT decided: no work list (a vector the search pops from) recognised", s.loc())
     if n == 0:
         r.ok("%s|neighbour" % fcc.id, "NOT decided: no addition to the returned vector found", fcc.loc())
+    # merging the components of several listed arguments: each traversal result is added to what is extracted, none replaces it
+    for b in sorted(prog.lib_bodies(), key=lambda x: x.id):
+        if b.kind == "closure" or not b.path.startswith("utils::connected_components_computer"):
+            continue
+        exs = [s for s in b.calls() if prog.body_for_callee(callee_of(s), b) is not None and any(callee_matches(callee_of(x), r"ArgumentSet::new_with_labels$") for x in prog.body_for_callee(callee_of(s), b).calls())]
+        trav_in_iteration = [(y, s) for y in prog.with_closures(b) for s in y.calls() if prog.body_for_callee(callee_of(s), y) is fcc and (y is not b or y.in_loop(s.bb))]
+        if not exs or not trav_in_iteration:
+            continue
+        for ex in exs:
+            arg = [a for a in ex.node["args"][1:] if op_place(a) is not None]
+            if not arg:
+                continue
+            rts = roots(prog, b, arg[0])
+            # does a traversal result *become* the vector (assignment), instead of being appended to it?
+            replaced = False
+            for y, s in trav_in_iteration:
+                dst = s.node["dst"]["l"]
+                for st in y.sites():
+                    nd = st.node
+                    if st.si is not None and nd["k"] == "assign" and nd["rv"]["k"] == "use" and nd["dst"]["p"] == ["*"]:
+                        q = op_place(nd["rv"]["ops"][0])
+                        if q is not None and q["l"] == dst and not q["p"] and (roots(prog, y, {"l": nd["dst"]["l"], "p": []}) & rts):
+                            replaced = True
+                    if st.si is not None and nd["k"] == "assign" and nd["rv"]["k"] == "use" and not nd["dst"]["p"] and y is b:
+                        q = op_place(nd["rv"]["ops"][0])
+                        if q is not None and q["l"] == dst and not q["p"] and ("site", y.id, s.bb, s.si) in rts:
+                            replaced = True
+            r.check(not replaced, "%s|merge" % b.id, "component-replaces-the-others", "the component of each listed argument is added to the merged set", "in %s the component found for a listed argument replaces what was collected for the earlier ones: only the last component reaches the extraction, and the other listed arguments are not in the framework that is solved" % b.path.rsplit("::", 1)[-1], ex.loc())
